@@ -118,6 +118,14 @@ def check(run):
     ob_is_met(run, "O1.2")
     C03.ob_thresholds_creation(run, "O1.3a")
     C09.ob_threshold_validation(run, "O1.3b")
+    # agreement counts stake: a vote is counted for a validator only if it carries that validator's signature over that vote -
+    # Validated* are built only by try_new, try_new checks signer range, key and kind binding, and the node validates before the pool sees anything
+    C09.ob_construct(run, "O1.3c")
+    C09.ob_vote_try_new(run, "O1.3d")
+    C09.ob_cert_try_new(run, "O1.3e")
+    C09.ob_before_lock(run, "O1.3f")
+    C09.ob_kind_binding(run, "O1.3g")
+    C09.ob_sig_table(run, "O1.3h")
     C05.check(run, prefix="O1.4")
     C04.check(run, prefix="O1.5")
     C08.ob_cert_wiring(run, "O1.6")
